@@ -57,6 +57,7 @@ def gen(ctx: common.Ctx, n_hist: int, steps: tuple[int, int], all_configs: bool,
         for cfg in (cfgs if all_configs else [cfgs[k % 4]]):
             yield {"fn": "vlib.tasks.incr:run_history",
                    "args": {"versions": h["versions"], "flags": flags, "targets": targets, "config": cfg, "skip_runs": skip,
+                            "mtime_back": h["mtime_back"],
                             "true_cold_steps": [i for i in range(n) if ctx.tier == "thorough" and (i + k) % 10 == 0]},
                    "_k": ("x" if explore else "core") + str(k), "_ops": h["ops"], "_cfg": cfg, "_skip": skip}
 
